@@ -101,7 +101,11 @@ Theorem C16_no_notify_without_flag : forall i f, has f AllowNotify = false -> ha
 Proof. exact no_notify_without_flag_now. Qed.
 Print Assumptions C16_no_notify_without_flag.
 
-Theorem C16_no_call_without_flag : forall i f, has f AllowCall = false -> has_effect ECall (fst (exec_now f i)) = false.
+(* a run started without AllowCall makes no call at all (System.Contract.Call, CALLT, LoadScript are refused); the one
+   exception is the F39 primitive itself — native code calling back from a method that does not require AllowCall *)
+Theorem C16_no_call_without_flag : forall i f,
+  (forall r body, i <> ICallback false r body) ->
+  has f AllowCall = false -> has_effect ECall (fst (exec_now f i)) = false.
 Proof. exact no_call_without_flag_now. Qed.
 Print Assumptions C16_no_call_without_flag.
 
@@ -117,6 +121,17 @@ Theorem C16_callt_callee_flags : forall f r s,
   subflags (callee_flags f r s) f = true /\ (s = false -> subflags (callee_flags f r s) r = true).
 Proof. exact callt_callee_flags. Qed.
 Print Assumptions C16_callt_callee_flags.
+
+(* native -> contract callbacks (contract.CallFromNative: onNEP17Payment, _deploy, oracle callback) are a third call
+   primitive of the machine.  NO guard: whether or not the native frame has AllowCall (F39), the callback runs with
+   frame flags & requested flags, and everything below it stays within them *)
+Theorem C16_callback_flags_shrink : forall f gated r body,
+  let g := callback_flags f r in
+  subflags g f = true /\ subflags g r = true /\
+  Forall (eff_ok_wn g) (fst (run_with (exec_now g) body)) /\
+  Forall (eff_ok_wn f) (fst (exec_now f (ICallback gated r body))).
+Proof. exact callback_flags_shrink. Qed.
+Print Assumptions C16_callback_flags_shrink.
 
 (* frame level, calls included: partial — programs that do not call a method of the F39 class *)
 Theorem C16_effects_in_order_partial : forall i f, f39_free i = true -> Forall (eff_ok f) (fst (exec_now f i)).
@@ -218,6 +233,14 @@ Example C16_ex_callt :
   exec_now 15 (ICall 7 false [ICallT 5 false [ISys "System.Storage.Local.Put"]]) = ([(ECall, 15); (ECall, 7)], false) /\
   exec_now 15 (ICall 11 false [ICallT 15 false [ISys "System.Storage.Local.Put"]]) = ([(ECall, 15)], false) /\
   exec_now 15 (ICall 4 false [ICallT 15 false []]) = ([(ECall, 15)], false).
+Proof. vm_compute. auto. Qed.
+
+(* the F39 path: the callback runs under Read|Write|Notify, can write and notify, cannot call on *)
+Example C16_ex_callback :
+  exec_now 11 (ICallback false 15 [ISys "System.Storage.Local.Put"]) = ([(ECall, 11); (EWrite, 11)], true) /\
+  exec_now 11 (ICallback false 15 [ICall 15 false []]) = ([(ECall, 11)], false) /\
+  exec_now 11 (ICallback true 15 []) = ([], false) /\
+  exec_now 15 (ICallback true 15 [ICall 15 false []]) = ([(ECall, 15); (ECall, 15)], true).
 Proof. vm_compute. auto. Qed.
 
 Example C16_ex_native :
